@@ -16,6 +16,7 @@ import VyxalModel.Model.Input
 import VyxalModel.Model.Num
 import VyxalModel.Model.NumTheory
 import VyxalModel.Model.Lists
+import VyxalModel.Model.Cartesian
 import VyxalModel.Model.Vectorise
 import VyxalModel.Model.Streams
 import VyxalModel.Gen.Codepage
@@ -184,6 +185,8 @@ def lsCmd (arg : String) : String :=
      | "reverse" => showInts l.reverse
      | "powerset" => showIntss (Ls.powerset l)
      | "permutations" => showIntss (Ls.permutations l)
+     | "cartesian" => let r := parseInts b; showIntss ((Ls.cartesian l r (l.length - 1) (r.length - 1)).map (fun p => [p.1, p.2]))
+     | "cartesianlazy" => let r := parseInts b; showIntss ((Ls.cartesian l r 0 0).map (fun p => [p.1, p.2]))
      | "sublists" => showIntss (Ls.contiguous l)
      | "windows" => showIntss (Ls.windows l (b.toInt?.getD 0))
      | "rle" => "[" ++ ",".intercalate ((Ls.rle l).map (fun p => s!"[{p.1},{p.2}]")) ++ "]"
